@@ -136,7 +136,6 @@ impl Group for Reply {
             Some(hv) => {
                 let s = String::from_utf8_lossy(hv).into_owned();
                 let digits = |x: &str| !x.is_empty() && x.bytes().all(|c| c.is_ascii_digit());
-                let lenient = |x: &str| digits(x.strip_prefix('+').unwrap_or(x));
                 if let Some(rest) = s.strip_prefix("bytes=") {
                     let parts: Vec<&str> = rest.splitn(2, '-').collect();
                     if parts.len() == 2 && digits(parts[0]) && digits(parts[1]) {
@@ -157,12 +156,9 @@ impl Group for Reply {
                             // numbers beyond 2^64
                             _ => Some(full),
                         }
-                    } else if parts.len() == 2 && lenient(parts[0]) && lenient(parts[1]) {
-                        // `+1`: Rust's integer parser accepts a sign the grammar does not have; whether that is a
-                        // "malformed number" is left to the comparison with the model
-                        None
                     } else {
-                        // "anything else": several ranges, suffix and open ranges, a repeated unit, stray bytes
+                        // "anything else": several ranges, suffix and open ranges, a repeated unit, stray bytes, a sign
+                        // (`+1` is a number to `u64::from_str`, not to the grammar of a byte range: finding F40)
                         Some(full)
                     }
                 } else {
@@ -249,7 +245,6 @@ pub struct Wire;
 fn statement_expect(body: &[u8], hv: &[u8]) -> Option<(u16, Vec<u8>, Option<String>)> {
     let s = String::from_utf8_lossy(hv).into_owned();
     let digits = |x: &str| !x.is_empty() && x.bytes().all(|c| c.is_ascii_digit());
-    let lenient = |x: &str| digits(x.strip_prefix('+').unwrap_or(x));
     let Some(rest) = s.strip_prefix("bytes=") else { return Some((200, body.to_vec(), None)) };
     let parts: Vec<&str> = rest.splitn(2, '-').collect();
     if parts.len() == 2 && digits(parts[0]) && digits(parts[1]) {
@@ -265,10 +260,6 @@ fn statement_expect(body: &[u8], hv: &[u8]) -> Option<(u16, Vec<u8>, Option<Stri
             }
             _ => Some((200, body.to_vec(), None)),
         };
-    }
-    if parts.len() == 2 && lenient(parts[0]) && lenient(parts[1]) {
-        // a sign Rust's integer parser accepts and the grammar does not have: left to the comparison with the model
-        return None;
     }
     // "anything else" is the full response
     Some((200, body.to_vec(), None))
